@@ -486,18 +486,68 @@ class Interp:
             self.exec_block(st.orelse, frame)
             return  # continue after the loop from the havocked state
         v0 = clause.decreases(self, frame) if clause.decreases else None
+        heap0 = self._heap_snapshot(frame)
         try:
             self.exec_block(st.body, frame)
         except BreakSignal:
             return  # leaves the loop: code after the loop runs from this state
         except ContinueSignal:
             pass
+        # the next iteration starts from the havocked locals AND from the heap as the body leaves it: an object that
+        # exists before the loop and is modified by the body would have to be described by the invariant
+        changed = self._heap_changed(heap0)
+        if changed is not None:
+            raise Undecided("the loop body modifies %s, which exists before the loop; the loop invariant of the contract "
+                            "does not describe that state" % changed)
         for label, cond in clause.invariant(self, frame, "preserve"):
             ctx.check("%s/invariant-preserved:%s" % (base, label), cond)
         if v0 is not None:
             v1 = clause.decreases(self, frame)
             ctx.check("%s/variant-decreases" % base, And(lift_bool(zint(v1) >= 0), lift_bool(zint(v1) < zint(v0))))
         raise LoopCut()
+
+    def _heap_snapshot(self, frame):
+        """fields of every instance of a source class reachable from the locals of the frame (and its closures)"""
+        seen, snap = set(), []
+
+        def visit(v, depth):
+            if depth > 6 or id(v) in seen:
+                return
+            if isinstance(v, Obj):
+                seen.add(id(v))
+                if getattr(v.cls, "kind", "") != "builtin":
+                    snap.append((v, {k: (x, list(x) if isinstance(x, list) else None) for k, x in v.fields.items()}))
+                for x in list(v.fields.values()):
+                    visit(x, depth + 1)
+            elif isinstance(v, (list, tuple)):
+                seen.add(id(v))
+                for x in v:
+                    visit(x, depth + 1)
+            elif isinstance(v, PDict):
+                for k, x in v.pairs:
+                    visit(x, depth + 1)
+            elif isinstance(v, BoundMethod):
+                visit(v.self_obj, depth + 1)
+            elif isinstance(v, Closure) and v.frame is not None:
+                for x in list(v.frame.locals.values()):
+                    visit(x, depth + 1)
+        f = frame
+        while f is not None:
+            for x in list(f.locals.values()):
+                visit(x, 0)
+            f = f.parent
+        return snap
+
+    @staticmethod
+    def _heap_changed(snap):
+        for obj, fields in snap:
+            if set(obj.fields) != set(fields):
+                return "an instance of %s (attribute %s)" % (obj.cls.name, sorted(set(obj.fields) ^ set(fields))[0])
+            for k, (x, xs) in fields.items():
+                now = obj.fields[k]
+                if now is not x or (xs is not None and (len(now) != len(xs) or any(a is not b for a, b in zip(now, xs)))):
+                    return "an instance of %s (attribute %s)" % (obj.cls.name, k)
+        return None
 
     def x_Break(self, st, frame):
         raise BreakSignal()
